@@ -1,0 +1,9 @@
+//go:build verif
+
+package messages
+
+// VerifSerializePacket exposes the unexported inner-header serialiser to the verification
+// harness (build tag verif only; read-only, no behaviour change).
+func VerifSerializePacket(client MessageInformator, msg []byte, messageID int64, requireToAck bool) []byte {
+	return serializePacket(client, msg, messageID, requireToAck)
+}
